@@ -192,12 +192,37 @@ Definition gc_pass (t : table) (now : Z) : table :=
                             if changed then update_row acc (fst p) fs' else acc
                end) (t_rows t) t.
 
+
+(* CreateTable's validation: a table id has the documented format [_a-zA-Z0-9][-_.a-zA-Z0-9]*, and
+   the parent has the form projects/<project>/instances/<instance> *)
+Definition tid_first (b : N) : bool :=
+  (N.eqb b 95) || ((48 <=? b) && (b <=? 57))%N || ((65 <=? b) && (b <=? 90))%N || ((97 <=? b) && (b <=? 122))%N.
+Definition tid_rest (b : N) : bool := tid_first b || N.eqb b 45 || N.eqb b 46.
+Definition valid_tid (t : bytes) : bool :=
+  match t with
+  | [] => false
+  | b :: r => tid_first b && forallb tid_rest r
+  end.
+Definition s_dot : bytes := [46]%N.
+Definition s_dotdot : bytes := [46; 46]%N.
+Definition s_slash1 : bytes := [47]%N.
+Definition s_projects : bytes := [112;114;111;106;101;99;116;115]%N.          (* projects *)
+Definition s_instances : bytes := [105;110;115;116;97;110;99;101;115]%N.     (* instances *)
+Definition plain_seg (seg : bytes) : bool := negb (beqb seg []) && negb (beqb seg s_dot) && negb (beqb seg s_dotdot).
+(* projects/<project>/instances/<instance>, the two names non-empty, slash-free and not "." / ".." *)
+Definition valid_parent (p : bytes) : bool :=
+  match split p s_slash1 with
+  | [a; pr; b; inst] => beqb a s_projects && beqb b s_instances && plain_seg pr && plain_seg inst
+  | _ => false
+  end.
+
 Definition step (s : server) (c : call) : server * bresp :=
   let now := cl_now c in
   let coins := cl_coins c in
   match cl_req c with
   | BCreateTable parent tid fams =>
       let name := parent ++ s_tables_sep ++ tid in
+      if negb (valid_tid tid) || negb (valid_parent parent) then (s, fail cInvalidArgument) else
       match alookup name s with
       | Some _ => (s, fail cAlreadyExists)
       | None => let tf := fold_left (fun acc p => ainsert (fst p) (snd p) acc) fams [] in
